@@ -1,7 +1,469 @@
-import NasdaqModel.Model.GenHistory
+import NasdaqModel.Lemmas.GenHistoryLemmas
+/-
+C17 — code generation is a pure, repeatable function of the spec.
+
+The model (Model/GenHistory.lean) is parameterised by a `Semantics` record: how output files are opened and whether the
+class-level generator state is reset when a generation starts.  `actual` is the library as it is (append mode, no reset),
+`fixed` the repaired behaviour, `current` the one the correspondence check compares the library with on every run.
+
+The three clauses of the property hold for **every** semantics with `pureGen sem` (truncate + reset) — `fixed` is one
+(`C17_fixed_is_pure`), so after the repair the switch is `current := fixed` and the theorems apply to `current` by `hp := by decide`.
+They are FALSE for `actual`: Witness/C17.lean proves the negation of each clause on a concrete history, one per defect.
+What does hold for every semantics — hence for the unchanged code — is `C17_repeatable_partial` (a fresh process and an
+empty directory) and the frame / failure theorems.
+
+Quantification: all worlds (`w : World` — any process state and any file-system content, reachable or not) and therefore all
+histories (`run sem w0 h`), all specs, all options, all output directories; no bound on anything.
+-/
 namespace NasdaqModel.Props.C17
 open NasdaqModel GenHistory
 
-theorem C17_fixed_is_pure : pureGen fixed = true ∧ pureProj fixed = true := by decide
+/-! ## facts about the generators' plans (private helpers) -/
+
+private theorem planGen_retarget (sem : Semantics) (st : ProcState) (i : Inv) (d : Dir) :
+    planGen sem st (i.retarget d) = planGen sem st i := by
+  cases i <;> rfl
+
+private theorem retarget_isGen (i : Inv) (d : Dir) : (i.retarget d).isGen = i.isGen := by
+  cases i <;> rfl
+
+private theorem retarget_dir (i : Inv) (d : Dir) (hg : i.isGen = true) : (i.retarget d).dir = d := by
+  cases i <;> simp_all [Inv.retarget, Inv.dir, Inv.isGen]
+
+private theorem retarget_targetNames (i : Inv) (d : Dir) : targetNames (i.retarget d) = targetNames i := by
+  cases i <;> rfl
+
+private theorem pure_fields {sem : Semantics} (hp : pureGen sem = true) :
+    sem.genMode = .truncate ∧ sem.resetFieldDefs = true ∧ sem.resetContexts = true ∧ sem.resetCounter = true := by
+  simp [pureGen] at hp
+  exact ⟨hp.1.1.1, hp.1.1.2, hp.1.2, hp.2⟩
+
+/-- with reset-at-start semantics the outcome and everything written are independent of the process state -/
+private theorem planGen_state_indep (sem : Semantics) (hp : pureGen sem = true) (st : ProcState) (i : Inv) :
+    (planGen sem st i).2 = (planGen sem st0 i).2 := by
+  obtain ⟨_, h2, h3, h4⟩ := pure_fields hp
+  cases i with
+  | soup impl spec o => simp only [planGen, planSoup, h2, if_true]; split <;> rfl
+  | fix spec o => simp only [planGen, planFix, h3, h4, if_true]; split <;> (try rfl); split <;> rfl
+  | asn1 spec pdu pk o => rfl
+  | newProject t n a => rfl
+  | userEdit p n => rfl
+
+private theorem planGen_truncOnly (sem : Semantics) (hp : pureGen sem = true) (st : ProcState) (i : Inv) (rp : RelPlan)
+    (h : (planGen sem st i).2 = .ok rp) : truncOnly rp.acts = true := by
+  obtain ⟨h1, _, _, _⟩ := pure_fields hp
+  cases i with
+  | soup impl spec o =>
+    simp only [planGen, planSoup] at h
+    split at h
+    · cases h
+    · injection h with h; subst h
+      cases o.init <;> simp [truncOnly, h1]
+  | fix spec o =>
+    simp only [planGen, planFix] at h
+    split at h
+    · cases h
+    · split at h
+      · cases h
+      · injection h with h; subst h
+        cases o.init <;> simp [truncOnly, h1]
+  | asn1 spec pdu pk o =>
+    simp only [planGen, planAsn1] at h
+    injection h with h; subst h
+    cases o.init <;> simp [truncOnly, h1, List.all_map]
+  | newProject t n a => simp only [planGen] at h; injection h with h; subst h; rfl
+  | userEdit p n => simp only [planGen] at h; injection h with h; subst h; rfl
+
+/-- the files a generator writes are the syntactic `targetNames` (for every semantics and state) -/
+private theorem planGen_names (sem : Semantics) (st : ProcState) (i : Inv) (hg : i.isGen = true) (rp : RelPlan)
+    (h : (planGen sem st i).2 = .ok rp) : rp.acts.map (·.name) = targetNames i := by
+  cases i with
+  | soup impl spec o =>
+    obtain ⟨app, pfx, init, dir⟩ := o
+    simp only [planGen, planSoup] at h
+    split at h
+    · cases h
+    · injection h with h; subst h
+      cases init <;> simp [targetNames]
+  | fix spec o =>
+    obtain ⟨app, pfx, init, dir⟩ := o
+    simp only [planGen, planFix] at h
+    split at h
+    · cases h
+    · split at h
+      · cases h
+      · injection h with h; subst h
+        cases init <;> simp [targetNames]
+  | asn1 spec pdu pk o =>
+    obtain ⟨app, pfx, init, dir⟩ := o
+    simp only [planGen, planAsn1] at h
+    injection h with h; subst h
+    cases init <;> simp [targetNames, Function.comp_def]
+  | newProject t n a => simp [Inv.isGen] at hg
+  | userEdit p n => simp [Inv.isGen] at hg
+
+/-- unfolding of `invoke` for a generator invocation -/
+private theorem invoke_gen (sem : Semantics) (w : World) (i : Inv) (hg : i.isGen = true) :
+    invoke sem w i =
+      match (planGen sem w.st i).2 with
+      | .ok rp => (⟨(planGen sem w.st i).1, applyPlan w.fs (rp.at i.dir)⟩, .ok ())
+      | .error e => (⟨(planGen sem w.st i).1, w.fs⟩, .error e) := by
+  cases i with
+  | soup impl spec o =>
+    simp only [invoke, plan]
+    cases (planGen sem w.st _).2 <;> rfl
+  | fix spec o =>
+    simp only [invoke, plan]
+    cases (planGen sem w.st _).2 <;> rfl
+  | asn1 spec pdu pk o =>
+    simp only [invoke, plan]
+    cases (planGen sem w.st _).2 <;> rfl
+  | newProject t n a => simp [Inv.isGen] at hg
+  | userEdit p n => simp [Inv.isGen] at hg
+
+private theorem plan_gen (sem : Semantics) (st : ProcState) (i : Inv) (hg : i.isGen = true) :
+    (plan sem st i).2 =
+      match (planGen sem st i).2 with
+      | .ok rp => .ok (rp.at i.dir)
+      | .error e => .error e := by
+  cases i with
+  | soup impl spec o =>
+    simp only [plan]
+    cases (planGen sem st _).2 <;> rfl
+  | fix spec o =>
+    simp only [plan]
+    cases (planGen sem st _).2 <;> rfl
+  | asn1 spec pdu pk o =>
+    simp only [plan]
+    cases (planGen sem st _).2 <;> rfl
+  | newProject t n a => simp [Inv.isGen] at hg
+  | userEdit p n => simp [Inv.isGen] at hg
+
+/-- **Key lemma.**  With truncate-and-reset semantics, after a successful generator invocation into a directory that held
+    nothing but (possibly) files of the same target, the directory is a function of the invocation alone:
+    `lastByName` of the plan computed from the *initial* process state. -/
+private theorem dirView_invoke_pure (sem : Semantics) (hp : pureGen sem = true) (w : World) (i : Inv)
+    (hg : i.isGen = true) (rp : RelPlan) (hrp : (planGen sem st0 i).2 = .ok rp)
+    (hd : rp.wipe = true ∨ dirOnly w.fs i.dir (targetNames i) = true) :
+    dirView (invoke sem w i).1.fs i.dir = lastByName rp.acts := by
+  have hst : (planGen sem w.st i).2 = .ok rp := by rw [planGen_state_indep sem hp]; exact hrp
+  have htr := planGen_truncOnly sem hp st0 i rp hrp
+  have hnm := planGen_names sem st0 i hg rp hrp
+  funext n
+  rw [invoke_gen sem w i hg, hst]
+  simp only [dirView, applyPlan, RelPlan.at]
+  rw [read_applyActs_trunc _ _ htr]
+  cases hl : lastByName rp.acts n with
+  | some cs => rfl
+  | none =>
+    simp only []
+    have hn : n ∉ targetNames i := by
+      intro hin
+      rw [← hnm] at hin
+      have := lastByName_some rp.acts n hin
+      simp [hl] at this
+    cases hw : rp.wipe with
+    | true => simp [read_wipe, under_self]
+    | false =>
+      simp only [Bool.false_eq_true, if_false]
+      rcases hd with hd | hd
+      · simp [hw] at hd
+      · exact read_none_of_dirOnly _ _ _ hd n hn
+
+/-! ## the theorems -/
+
+/-- Non-vacuity of the hypothesis `pureGen sem`: the repaired semantics satisfies it (and `pureProj`); the library's
+    present behaviour does not. -/
+theorem C17_fixed_is_pure : pureGen fixed = true ∧ pureProj fixed = true ∧ pureGen actual = false := by decide
+
+/-- The outcome (success or the exception class) of a generator invocation depends on the invocation only — not on
+    what was generated before in the same process, not on what the file system holds. -/
+theorem C17_outcome_depends_on_spec_only (sem : Semantics) (hp : pureGen sem = true) (i : Inv) (hg : i.isGen = true)
+    (w : World) : (invoke sem w i).2 = (invoke sem w0 i).2 := by
+  rw [invoke_gen sem w i hg, invoke_gen sem w0 i hg, planGen_state_indep sem hp w.st i]
+  show _ = (match (planGen sem st0 i).2 with | .ok rp => _ | .error e => _ : World × Except Err Unit).2
+  cases (planGen sem st0 i).2 <;> rfl
+
+/-- A failing invocation writes nothing (every semantics, every invocation). -/
+theorem C17_failed_invocation_writes_nothing (sem : Semantics) (w : World) (i : Inv) (e : Err)
+    (h : (invoke sem w i).2 = .error e) : (invoke sem w i).1.fs = w.fs := by
+  unfold invoke at h ⊢
+  simp only at h ⊢
+  cases hp : (plan sem w.st i).2 with
+  | ok pl => simp [hp] at h
+  | error e' => simp
+
+/-- Frame: a generator invocation changes nothing outside its output directory (every semantics). -/
+theorem C17_frame (sem : Semantics) (w : World) (i : Inv) (hg : i.isGen = true) (p : Path)
+    (hp : p.1.under i.dir = false) : read (invoke sem w i).1.fs p = read w.fs p := by
+  have hne : p.1 ≠ i.dir := by
+    intro e
+    rw [e, under_self] at hp
+    cases hp
+  rw [invoke_gen sem w i hg]
+  cases (planGen sem w.st i).2 with
+  | error e => rfl
+  | ok rp =>
+    simp only [applyPlan, RelPlan.at]
+    rw [read_applyActs_other _ _ _ _ hne]
+    cases rp.wipe <;> simp [read_wipe, hp]
+
+/-- Every file an invocation writes holds exactly what the same invocation writes when it runs alone in a fresh
+    process into an empty directory — whatever was generated before, whatever the file held. -/
+theorem C17_written_files_fresh (sem : Semantics) (hp : pureGen sem = true) (i : Inv) (hg : i.isGen = true) (w : World)
+    (hok : (invoke sem w0 i).2 = .ok ()) (n : Str) (hn : n ∈ targetNames i) :
+    read (invoke sem w i).1.fs (i.dir, n) = read (invoke sem w0 i).1.fs (i.dir, n) := by
+  cases hrp : (planGen sem st0 i).2 with
+  | error e =>
+    rw [invoke_gen sem w0 i hg] at hok
+    simp [w0, hrp] at hok
+  | ok rp =>
+    have hst : (planGen sem w.st i).2 = .ok rp := by rw [planGen_state_indep sem hp]; exact hrp
+    have htr := planGen_truncOnly sem hp st0 i rp hrp
+    have hnm := planGen_names sem st0 i hg rp hrp
+    have hsome := lastByName_some rp.acts n (by rw [hnm]; exact hn)
+    rw [invoke_gen sem w i hg, invoke_gen sem w0 i hg, hst]
+    simp only [w0, hrp, applyPlan, RelPlan.at]
+    rw [read_applyActs_trunc _ _ htr, read_applyActs_trunc _ _ htr]
+    cases hl : lastByName rp.acts n with
+    | some cs => rfl
+    | none => simp [hl] at hsome
+
+/-- **Clause 1 (repeatable).**  The same spec and options generated twice — after arbitrary histories `h1`, `h2`
+    (in one process or in separate ones: `Ev.newProcess` may occur anywhere in them), into directories that are empty —
+    give the same outcome, identical directories and the same import result. -/
+theorem C17_repeatable (sem : Semantics) (hp : pureGen sem = true) (i : Inv) (hg : i.isGen = true)
+    (h1 h2 : List Ev) (d1 d2 : Dir)
+    (he1 : dirOnly (run sem w0 h1).fs d1 [] = true) (he2 : dirOnly (run sem w0 h2).fs d2 [] = true) :
+    (invoke sem (run sem w0 h1) (i.retarget d1)).2 = (invoke sem (run sem w0 h2) (i.retarget d2)).2
+    ∧ dirView (invoke sem (run sem w0 h1) (i.retarget d1)).1.fs d1 = dirView (invoke sem (run sem w0 h2) (i.retarget d2)).1.fs d2
+    ∧ importAfter sem (run sem w0 h1) (i.retarget d1) = importAfter sem (run sem w0 h2) (i.retarget d2) := by
+  have hg1 : (i.retarget d1).isGen = true := by rw [retarget_isGen]; exact hg
+  have hg2 : (i.retarget d2).isGen = true := by rw [retarget_isGen]; exact hg
+  have hd1 := retarget_dir i d1 hg
+  have hd2 := retarget_dir i d2 hg
+  have key : ∀ (d : Dir) (w : World), dirOnly w.fs d [] = true →
+      (invoke sem w (i.retarget d)).2 = (match (planGen sem st0 i).2 with | .ok _ => .ok () | .error e => .error e)
+      ∧ (∀ rp, (planGen sem st0 i).2 = .ok rp → dirView (invoke sem w (i.retarget d)).1.fs d = lastByName rp.acts)
+      ∧ ((planGen sem st0 i).2 = (planGen sem st0 i).2 →
+          importAfter sem w (i.retarget d) =
+            match (planGen sem st0 i).2 with
+            | .ok rp => importPkg (lastByName rp.acts) rp.modules
+            | .error e => .error e) := by
+    intro d w hempty
+    have hgd : (i.retarget d).isGen = true := by rw [retarget_isGen]; exact hg
+    have hdd := retarget_dir i d hg
+    have hst : (planGen sem w.st (i.retarget d)).2 = (planGen sem st0 i).2 := by
+      rw [planGen_retarget, planGen_state_indep sem hp]
+    have hview : ∀ rp, (planGen sem st0 i).2 = .ok rp →
+        dirView (invoke sem w (i.retarget d)).1.fs d = lastByName rp.acts := by
+      intro rp hrp
+      have := dirView_invoke_pure sem hp w (i.retarget d) hgd rp (by rw [planGen_retarget]; exact hrp)
+        (Or.inr (by
+          rw [hdd]
+          unfold dirOnly at hempty ⊢
+          rw [List.all_eq_true] at hempty ⊢
+          intro e he
+          have := hempty e he
+          simp at this
+          simp [this]))
+      rw [hdd] at this
+      exact this
+    refine ⟨?_, hview, ?_⟩
+    · rw [invoke_gen sem w _ hgd, hst]
+      cases (planGen sem st0 i).2 <;> rfl
+    · intro _
+      unfold importAfter
+      rw [plan_gen sem w.st _ hgd, hst, hdd]
+      cases hrp : (planGen sem st0 i).2 with
+      | error e => rfl
+      | ok rp =>
+        simp only [RelPlan.at]
+        rw [hview rp hrp]
+  obtain ⟨a1, b1, c1⟩ := key d1 _ he1
+  obtain ⟨a2, b2, c2⟩ := key d2 _ he2
+  refine ⟨by rw [a1, a2], ?_, by rw [c1 rfl, c2 rfl]⟩
+  cases hrp : (planGen sem st0 i).2 with
+  | ok rp => rw [b1 rp hrp, b2 rp hrp]
+  | error e =>
+    -- both invocations fail and write nothing: both directories stay empty
+    have f1 := C17_failed_invocation_writes_nothing sem (run sem w0 h1) (i.retarget d1) e (by rw [a1, hrp])
+    have f2 := C17_failed_invocation_writes_nothing sem (run sem w0 h2) (i.retarget d2) e (by rw [a2, hrp])
+    funext n
+    simp only [dirView, f1, f2]
+    rw [read_none_of_dirOnly _ _ _ he1 n (by simp), read_none_of_dirOnly _ _ _ he2 n (by simp)]
+
+/-- **Clause 2 (regenerate in place).**  After any history `h`, generating into a directory that holds nothing but a
+    previous output of the same target (same generator, app name, prefix, init flag — the spec may have been edited
+    in between; for the ASN.1 generator, which empties the directory first, *any* directory) leaves exactly the directory
+    a fresh single run produces — hence a package that imports exactly as the fresh one does and reflects the current spec. -/
+theorem C17_regenerate_in_place (sem : Semantics) (hp : pureGen sem = true) (i : Inv) (hg : i.isGen = true) (h : List Ev)
+    (hok : (invoke sem w0 i).2 = .ok ())
+    (hdir : dirOnly (run sem w0 h).fs i.dir (targetNames i) = true) :
+    (invoke sem (run sem w0 h) i).2 = .ok ()
+    ∧ dirView (invoke sem (run sem w0 h) i).1.fs i.dir = dirView (invoke sem w0 i).1.fs i.dir
+    ∧ importAfter sem (run sem w0 h) i = importAfter sem w0 i := by
+  have hout := C17_outcome_depends_on_spec_only sem hp i hg (run sem w0 h)
+  cases hrp : (planGen sem st0 i).2 with
+  | error e =>
+    rw [invoke_gen sem w0 i hg] at hok
+    simp [w0, hrp] at hok
+  | ok rp =>
+    have v1 := dirView_invoke_pure sem hp (run sem w0 h) i hg rp hrp (Or.inr hdir)
+    have v0 := dirView_invoke_pure sem hp w0 i hg rp hrp (Or.inr (by simp [w0, dirOnly]))
+    refine ⟨by rw [hout, hok], by rw [v1, v0], ?_⟩
+    unfold importAfter
+    rw [plan_gen sem _ i hg, plan_gen sem _ i hg, planGen_state_indep sem hp (run sem w0 h).st i, v1, v0]
+    rfl
+
+/-- Clause 2 for the ASN.1 generator needs no hypothesis on the directory. -/
+theorem C17_regenerate_in_place_asn1 (sem : Semantics) (hp : pureGen sem = true) (spec : Asn1Spec) (pdu pk : Str)
+    (o : GenOpts) (w : World) :
+    dirView (invoke sem w (.asn1 spec pdu pk o)).1.fs o.dir = dirView (invoke sem w0 (.asn1 spec pdu pk o)).1.fs o.dir := by
+  have hrp : (planGen sem st0 (.asn1 spec pdu pk o)).2 = .ok (planAsn1 sem st0 spec pdu pk o).2.toOption.get! := by
+    simp [planGen, planAsn1, Except.toOption]
+  have hw : ((planAsn1 sem st0 spec pdu pk o).2.toOption.get!).wipe = true := by
+    simp [planAsn1, Except.toOption]
+  have v1 := dirView_invoke_pure sem hp w (.asn1 spec pdu pk o) rfl _ hrp (Or.inl hw)
+  have v0 := dirView_invoke_pure sem hp w0 (.asn1 spec pdu pk o) rfl _ hrp (Or.inl hw)
+  simp only [Inv.dir] at v1 v0
+  rw [v1, v0]
+
+/-- **Clause 3 (no leak between specs).**  Generating B after any history (any specs A…, same process or not, same
+    directory or not) gives the same outcome as generating B alone, and every file B writes is exactly the file B alone
+    writes — nothing of A in it.  (Files B does not write are untouched: `C17_frame`; a directory that was empty equals
+    the fresh one: `C17_repeatable`.) -/
+theorem C17_no_leak_between_specs (sem : Semantics) (hp : pureGen sem = true) (b : Inv) (hg : b.isGen = true) (h : List Ev) :
+    (invoke sem (run sem w0 h) b).2 = (invoke sem w0 b).2
+    ∧ ((invoke sem w0 b).2 = .ok () → ∀ n, n ∈ targetNames b →
+        read (invoke sem (run sem w0 h) b).1.fs (b.dir, n) = read (invoke sem w0 b).1.fs (b.dir, n)) :=
+  ⟨C17_outcome_depends_on_spec_only sem hp b hg _, fun hok n hn => C17_written_files_fresh sem hp b hg _ hok n hn⟩
+
+/-- What holds for EVERY semantics, in particular for the unchanged library (`actual`): an invocation that runs in a
+    fresh process (`st0`) into an empty directory and writes no file twice gives the same outcome and the same directory
+    as when it runs alone — whatever else the file system holds.
+    Full statement (clause 1 without "fresh process", clauses 2 and 3) is `C17_repeatable` / `C17_regenerate_in_place` /
+    `C17_no_leak_between_specs` above; for `actual` they are false (Witness/C17.lean), the missing part is exactly
+    `pureGen`: files opened with 'w', class-level state reset per generation. -/
+theorem C17_repeatable_partial (sem : Semantics) (i : Inv) (hg : i.isGen = true) (fs : FS)
+    (hnd : (targetNames i).Nodup) (hempty : dirOnly fs i.dir [] = true) :
+    (invoke sem ⟨st0, fs⟩ i).2 = (invoke sem w0 i).2
+    ∧ dirView (invoke sem ⟨st0, fs⟩ i).1.fs i.dir = dirView (invoke sem w0 i).1.fs i.dir := by
+  rw [invoke_gen sem ⟨st0, fs⟩ i hg, invoke_gen sem w0 i hg]
+  simp only [w0]
+  cases hrp : (planGen sem st0 i).2 with
+  | error e =>
+    refine ⟨rfl, ?_⟩
+    funext n
+    simp only [dirView]
+    rw [read_none_of_dirOnly _ _ _ hempty n (by simp)]
+    rfl
+  | ok rp =>
+    refine ⟨rfl, ?_⟩
+    have hnm := planGen_names sem st0 i hg rp hrp
+    funext n
+    simp only [dirView, applyPlan, RelPlan.at]
+    have hbase : ∀ (base : FS), (∀ m, read base (i.dir, m) = none) →
+        read (applyActs base (rp.acts.map (RelAction.at i.dir))) (i.dir, n) = lastByName rp.acts n := by
+      intro base hb
+      rw [read_applyActs_absent i.dir rp.acts (by rw [hnm]; exact hnd) base (fun m _ => hb m) n]
+      cases lastByName rp.acts n <;> simp [hb]
+    rw [hbase, hbase]
+    · intro m; cases rp.wipe <;> simp [read_wipe]
+    · intro m
+      have := read_none_of_dirOnly _ _ _ hempty m (by simp)
+      cases rp.wipe <;> simp [read_wipe, this]
+
+/-! ## the project tool -/
+
+private theorem read_applyActs_notin (acts : List Action) (fs : FS) (p : Path) (h : ∀ a, a ∈ acts → a.path ≠ p) :
+    read (applyActs fs acts) p = read fs p := by
+  induction acts generalizing fs with
+  | nil => rfl
+  | cons a rest ih =>
+    simp only [applyActs, List.foldl_cons] at ih ⊢
+    rw [ih _ (fun b hb => h b (by simp [hb]))]
+    exact read_write_other _ _ _ _ _ (fun e => h a (by simp) e.symm)
+
+private theorem write_ifAbsent_present (fs : FS) (p : Path) (cs v : List Chunk) (h : read fs p = some v) :
+    write .ifAbsent fs p cs = fs := by
+  unfold write
+  simp [h]
+
+/-- Re-running `new_project` on an existing project (to add an application), with the repaired semantics
+    (`pyproject.toml` written only when absent, `tox.ini` rewritten): `tox.ini` is exactly the fresh file for the current
+    application list, `pyproject.toml` keeps what it held (user edits included) or is the fresh file; both parse. -/
+theorem C17_new_project_rerun (sem : Semantics) (hp : pureProj sem = true) (w : World) (t : Nat) (name : Str)
+    (apps : List (Str × Impl)) (hd : dupApps apps = false) :
+    read (invoke sem w (.newProject t name apps)).1.fs (.proj t name, sTox) = some [.tox (srcName name) apps]
+    ∧ read (invoke sem w (.newProject t name apps)).1.fs (.proj t name, sPyproject)
+        = some ((read w.fs (.proj t name, sPyproject)).getD [.pyproject name])
+    ∧ configValid (read (invoke sem w (.newProject t name apps)).1.fs (.proj t name, sTox)) = true
+    ∧ (configValid (read w.fs (.proj t name, sPyproject)) = true →
+        configValid (read (invoke sem w (.newProject t name apps)).1.fs (.proj t name, sPyproject)) = true) := by
+  simp [pureProj] at hp
+  obtain ⟨hp1, hp2⟩ := hp
+  have hne : (Dir.proj t name, sTox) ≠ (Dir.proj t name, sPyproject) := by
+    intro e; injection e with _ e2; revert e2; decide
+  have hx : ∀ (fs : FS) (p : Path), p.1 = Dir.proj t name →
+      read (applyActs fs (apps.map fun a => (⟨(.app t name a.1, a.1 ++ sXml), .ifAbsent, [.appXml]⟩ : Action))) p = read fs p := by
+    intro fs p hpd
+    apply read_applyActs_notin
+    intro a ha e
+    simp only [List.mem_map] at ha
+    obtain ⟨x, _, rfl⟩ := ha
+    rw [← e] at hpd
+    cases hpd
+  have htox : read (invoke sem w (.newProject t name apps)).1.fs (.proj t name, sTox) = some [.tox (srcName name) apps] := by
+    simp only [invoke, plan, planNewProject, hd, Bool.false_eq_true, if_false, applyPlan, applyActs, List.foldl_append,
+      List.foldl_cons, List.foldl_nil, hp2]
+    rw [read_write_truncate]; simp
+  have hpy : read (invoke sem w (.newProject t name apps)).1.fs (.proj t name, sPyproject)
+      = some ((read w.fs (.proj t name, sPyproject)).getD [.pyproject name]) := by
+    simp only [invoke, plan, planNewProject, hd, Bool.false_eq_true, if_false, applyPlan, applyActs, List.foldl_append,
+      List.foldl_cons, List.foldl_nil, hp1]
+    rw [read_write_other _ _ _ _ _ hne.symm]
+    have hbase : read (write Mode.ifAbsent (List.foldl (fun fs a => write a.mode fs a.path a.chunks) w.fs
+        (apps.map fun a => (⟨(.app t name a.1, a.1 ++ sXml), .ifAbsent, [.appXml]⟩ : Action)))
+        (Dir.pkg t name, sInit ++ sPy) []) (Dir.proj t name, sPyproject) = read w.fs (Dir.proj t name, sPyproject) := by
+      rw [read_write_other _ _ _ _ _ (by intro e; cases e)]
+      exact hx w.fs _ rfl
+    cases hr : read w.fs (Dir.proj t name, sPyproject) with
+    | some v =>
+      rw [write_ifAbsent_present _ _ _ v (by rw [hbase, hr]), hbase, hr]; rfl
+    | none =>
+      rw [read_write_absent _ _ _ _ (by rw [hbase, hr])]
+      rfl
+  refine ⟨htox, hpy, by rw [htox]; rfl, ?_⟩
+  intro hv
+  rw [hpy]
+  cases hr : read w.fs (Dir.proj t name, sPyproject) with
+  | some v => rw [hr] at hv; exact hv
+  | none => rfl
+
+/-! ## non-vacuity: concrete invocations that satisfy the hypotheses, and what the theorems give for them -/
+
+section examples
+private def specA : SoupSpec := ⟨1, some [(1, 0), (2, 1)], [1, 2], [65, 66]⟩
+private def specC : SoupSpec := ⟨2, none, [1], [65]⟩            -- no fielddef-root, one `def=` reference
+private def optsX : GenOpts := ⟨[120], [], true, .out 1⟩          -- app "x", no prefix, init file
+private def fixA : FixSpec := ⟨1, 44, [1, 2], [1], [.mk 1 [2] [.mk 2 [1] []]], [1, 2]⟩
+private def fixB : FixSpec := ⟨2, 44, [3], [3], [.mk 1 [3] []], [1]⟩
+
+-- a successful invocation; its directory after two runs under `fixed` is the fresh one, and the package imports
+example : (invoke fixed w0 (.soup .ouch specA optsX)).2 = .ok () := by decide
+example : dirOnly (run fixed w0 [.inv (.soup .ouch specA optsX)]).fs (Dir.out 1)
+    (targetNames (.soup .ouch specA optsX)) = true := by decide
+example : importAfter fixed (run fixed w0 [.inv (.soup .ouch specA optsX)]) (.soup .ouch specA optsX) = .ok () := by decide
+-- an invocation that fails alone fails in every history under `fixed` (the theorem is not only about successes)
+example : (invoke fixed (run fixed w0 [.inv (.soup .ouch specA optsX)]) (.soup .ouch specC optsX)).2 = .error .key := by decide
+-- FIX: B after A in one process under `fixed` writes the fresh groups module and imports
+example : read (run fixed w0 [.inv (.fix fixA optsX), .inv (.fix fixB { optsX with dir := .out 2 })]).fs
+      (.out 2, prefix_ [] ++ sFix ++ [120] ++ sGroups ++ sPy)
+    = read (run fixed w0 [.inv (.fix fixB { optsX with dir := .out 2 })]).fs (.out 2, prefix_ [] ++ sFix ++ [120] ++ sGroups ++ sPy) := by
+  decide
+example : (targetNames (.fix fixA optsX)).Nodup := by decide
+example : dupApps [([111, 101], Impl.ouch), ([109, 100], Impl.itch)] = false := by decide
+end examples
 
 end NasdaqModel.Props.C17
